@@ -94,6 +94,16 @@ Theorem C13_dedup_helper_merge_refuted :
 Proof. exact dedup_helper_merge_refuted. Qed.
 Print Assumptions C13_dedup_helper_merge_refuted.
 
+(* a second way in which the default options fail where --skip-deduplication
+   succeeds: every volume becomes patently empty after de-duplication (the only
+   live cell is  -1 2  with 1, 2 both PX 2) and the writer raises ValueError on
+   max() of an empty set.  Known finding all_volumes_empty_after_dedup. *)
+Theorem C13_dedup_all_empty_refuted :
+  finish ZS false empty_surfs empty_volus 4 5 = Err EValue /\
+  exists out, finish ZS true empty_surfs empty_volus 4 5 = Ok out.
+Proof. exact dedup_all_empty_refuted. Qed.
+Print Assumptions C13_dedup_all_empty_refuted.
+
 (* ---- inlining ---- *)
 
 (* --max-inline-score: for EVERY set of cells to inline and every acyclic cell
@@ -106,6 +116,14 @@ Theorem C13_inline_den : forall (rank : Z -> nat) (sigma : Z -> bool) fuel ti di
   (forall k, lookup k dic <> None -> cden rank sigma dic' k = cden rank sigma dic k).
 Proof. exact inline_den. Qed.
 Print Assumptions C13_inline_den.
+
+(* inlining does what the option says: afterwards no cell mentions a cell of
+   to_inline (given that no geometry is a bare CellRef, as pot_fill guarantees) *)
+Theorem C13_inline_complete : forall fuel ti dic dic',
+  no_bare dic -> inline_cells fuel ti dic = Ok dic' ->
+  forall k c, lookup k dic' = Some c -> forall r, In r (refs (cgeom c)) -> memZ r ti = false.
+Proof. exact inline_complete. Qed.
+Print Assumptions C13_inline_complete.
 
 (* without acyclicity: whatever model the table has stays a model *)
 Theorem C13_inline_model : forall sigma rho fuel ti dic dic',
